@@ -433,6 +433,16 @@ Fixpoint set_nth {A} (l : list A) (k : nat) (x : A) : list A :=
   | y :: r, S k' => y :: set_nth r k' x
   end.
 
+(* every member in turn: member number j is rewritten with the piece paired with j, if any *)
+Definition write_all_f (w : nt -> nt -> res nt) (js : list nat) (pieces : list nt) : list nt -> nat -> res (list nt) :=
+  fix wa (l : list nt) (j : nat) : res (list nt) :=
+    match l with
+    | [] => Ok []
+    | m :: r =>
+        rbind (match find_piece j js pieces with Some q => w m q | None => Ok m end)
+              (fun y => rbind (wa r (S j)) (fun ys => Ok (y :: ys)))
+    end.
+
 (* LazyStackedTensorDict.__setitem__ on a non-tensor stack (the value already has the indexed batch size) *)
 Fixpoint assign (x : nt) (idx : list item) (v : nt) {struct x} : res nt :=
   match x with
@@ -453,25 +463,15 @@ Fixpoint assign (x : nt) (idx : list item) (v : nt) {struct x} : res nt :=
           let ud := new_stack_dim d s in
           let n := length l in
           (* member number j receives the piece paired with j (targets are pairwise distinct: checked by [nodupb]) *)
-          let write1 := (fun (replace : bool) (m piece : nt) =>
-                           match sub with
-                           | [] => if replace then Ok piece else update_in m piece
-                           | _ => assign m sub piece
-                           end) in
-          let write_all := (fix wa (l : list nt) (j : nat) (js : list nat) (pieces : list nt) (replace : bool) : res (list nt) :=
-                              match l with
-                              | [] => Ok []
-                              | m :: r =>
-                                  rbind (match find_piece j js pieces with
-                                         | Some q => write1 replace m q
-                                         | None => Ok m
-                                         end) (fun y => rbind (wa r (S j) js pieces replace) (fun ys => Ok (y :: ys)))
-                              end) in
           let go := (fun (js : list nat) (pieces : list nt) (replace : bool) =>
                        if negb (Nat.eqb (length js) (length pieces)) then Raised           (* _zip_strict *)
                        else if negb (forallb (fun j => j <? n) js) then Raised
                        else if negb (nodupb js) then OutOfModel
-                       else rbind (write_all l 0 js pieces replace) (fun l' => Ok (Stack d l'))) in
+                       else rbind (write_all_f (fun m piece =>
+                                                  match sub with
+                                                  | [] => if replace then Ok piece else update_in m piece
+                                                  | _ => assign m sub piece
+                                                  end) js pieces l 0) (fun l' => Ok (Stack d l'))) in
           match at_ with
           | None => rbind (unbind ud v) (fun ps => go (seq 0 n) ps false)
           | Some (IInt i) =>
